@@ -488,6 +488,87 @@ fn exact_cases(rng: &mut Rng, thorough: bool, emit: &mut dyn FnMut(String)) {
     }
 }
 
+/// RESONANT gradient descent: small-integer data whose sums are exact in binary64, with a step that makes one factor of
+/// the iteration exactly 0 or 1 - `alpha * mean(x^2) == 1` (the slope's partial gradient is exactly 0 on the second pass
+/// while the intercept's is not), `alpha == 1/n`, `alpha * var(x) == 1`, round steps 1/2, 1/4, 1/8 - and data with exact
+/// symmetries (even / odd responses on a symmetric grid: one partial gradient is exactly 0 on every pass).  A shortcut
+/// that reads "this gradient component is 0" as "converged" only shows on such data.
+fn resonant_gd(rng: &mut Rng, thorough: bool, emit: &mut dyn FnMut(String)) {
+    let want = if thorough { 400 } else { 60 };
+    let mut made = 0;
+    let mut tries = 0;
+    while made < want && tries < 200_000 {
+        tries += 1;
+        let n = *rng.pick(&[4usize, 8, 8, 16]);
+        let x: Vec<f64> = (0..n).map(|_| rng.range(-4, 5) as f64).collect();
+        let sx: f64 = x.iter().sum();
+        let sxx: f64 = x.iter().map(|v| v * v).sum();
+        let m2 = sxx / n as f64;
+        let var = m2 - (sx / n as f64) * (sx / n as f64);
+        if distinct(&x) < 3 || sx == 0.0 {
+            continue;
+        }
+        let lmax = lambda_max(&x);
+        if !(lmax.is_finite() && lmax > 0.0) {
+            continue;
+        }
+        // candidate steps; keep the exactly representable ones whose product with the moment is exactly 1
+        let mut alphas: Vec<f64> = Vec::new();
+        for (mom, _name) in [(m2, "m2"), (var, "var"), (n as f64, "n"), (m2 + 1.0, "trace")] {
+            if mom > 0.0 {
+                let a = 1.0 / mom;
+                if a * mom == 1.0 && (a * 1024.0).fract() == 0.0 {
+                    alphas.push(a);
+                }
+            }
+        }
+        for a in [0.5, 0.25, 0.125] {
+            alphas.push(a);
+        }
+        alphas.retain(|a| *a < 1.9 / lmax);
+        if !alphas.iter().any(|a| a * m2 == 1.0) && made % 3 != 2 {
+            continue;
+        }
+        let y: Vec<f64> = match rng.below(3) {
+            0 => x.iter().map(|v| 2.0 * v + 1.0 + rng.range(-2, 3) as f64).collect(),
+            1 => (0..n).map(|_| rng.range(-6, 7) as f64).collect(),
+            _ => x.iter().map(|v| -3.0 * v + 4.0).collect(),
+        };
+        let q = vec![0.0, 1.0, -2.5];
+        let (rx, ry, rq) = (req_vec_f(&x), req_vec_f(&y), req_vec_f(&q));
+        for a in alphas {
+            for steps in [1u64, 2, 3, 50, 4000] {
+                emit(format!("fit_gd {steps} {} {rx} {ry} {rq}", rbits(a)));
+            }
+        }
+        made += 1;
+    }
+    // exact symmetries: symmetric grid, even / odd / mixed responses
+    for half in 1..=(if thorough { 8 } else { 4 }) {
+        let x: Vec<f64> = (-(half as i64)..=half as i64).map(|v| v as f64).collect();
+        let lmax = lambda_max(&x);
+        for kind in 0..4 {
+            let y: Vec<f64> = x
+                .iter()
+                .map(|v| match kind {
+                    0 => v * v,
+                    1 => v * v * v - v,
+                    2 => v * v + 3.0 * v,
+                    _ => v.abs() - 1.0,
+                })
+                .collect();
+            let (rx, ry, rq) = (req_vec_f(&x), req_vec_f(&y), req_vec_f(&[0.5, -1.0]));
+            for theta in [0.25, 0.9] {
+                emit(format!("fit_gd 3000 {} {rx} {ry} {rq}", rbits(theta * 2.0 / lmax)));
+            }
+            // the same data shifted off the symmetric position (sum x != 0)
+            let xs: Vec<f64> = x.iter().map(|v| v + 1.0).collect();
+            let l2 = lambda_max(&xs);
+            emit(format!("fit_gd 3000 {} {} {ry} {rq}", rbits(0.5 * 2.0 / l2), req_vec_f(&xs)));
+        }
+    }
+}
+
 pub fn generate(seed: u64, thorough: bool, emit: &mut dyn FnMut(String)) {
     let mut rng = Rng::new(seed ^ 0xC15);
     {
@@ -495,6 +576,7 @@ pub fn generate(seed: u64, thorough: bool, emit: &mut dyn FnMut(String)) {
         scale_families(&mut r2, thorough, emit);
         size_sweep(&mut r2, thorough, emit);
         exact_cases(&mut r2, thorough, emit);
+        resonant_gd(&mut r2, thorough, emit);
     }
     // work budget for gradient descent in (steps x points)
     let mut gd_budget: i64 = if thorough { 3_000_000_000 } else { 60_000_000 };
